@@ -10,6 +10,9 @@ R13.2 TokenStream::read_tokens adds every token it reads to the buffer (shared w
 R13.3 declaration order is the scanner's priority order: built-in tokens are pushed in the order NEW_LINE < WHITESPACE <
       LINE_COMMENT < BLOCK_COMMENT, user terminals come from get_ordered_terminals().iter().enumerate() without
       reordering adaptors, ScannerBuildInfo's Display writes the mappings in vector order.
+R13.5 each pattern is expanded with its own kind: in generate_build_information every TerminalKind::expand call takes
+      kind and text from the same object - the terminal's (k, t) of the ordered-terminal tuple, or the look-ahead
+      expression's own (kind, pattern) fields; the scanner state filter reads the tuple's state list (field 3).
 R13.4 declared scanner transitions reach the generated scanner unfiltered: generate_build_information returns a plain
       clone of self.transitions, and the Display impl writes every transition.
 """
@@ -171,3 +174,37 @@ def check(ctx):
               "the transitions handed to the scanner generator are a plain clone of self.transitions",
               "generate_build_information does not pass self.transitions on unchanged: a declared %on .. %enter/%push/%pop "
               "can be missing from the generated scanner", where(g))
+
+    # ---------------------------------------------------------------- R13.5
+    EXP = "parol::grammar::symbol::TerminalKind::expand"
+    n_exp = 0
+    for b in facts.family(g):
+        for c in b.calls():
+            if c.path != EXP:
+                continue
+            n_exp += 1
+            kp = raw_operand_place(b, c.args[0])
+            tp = raw_operand_place(b, c.args[1])
+            # look through a Deref::deref of the String/&str argument
+            d = single_def(b, tp[0]) if tp else None
+            hops = 0
+            while d and d[0] == "call" and d[3].args and (d[3].names() & {"std::ops::Deref::deref", "std::string::String::as_str"}) and hops < 3:
+                tp = raw_operand_place(b, d[3].args[0])
+                d = single_def(b, tp[0]) if tp else None
+                hops += 1
+            kf = [e for e in (kp or [0])[1:] if isinstance(e, list) and e[0] == "f"]
+            tf = [e for e in (tp or [0])[1:] if isinstance(e, list) and e[0] == "f"]
+            ok = False
+            how = ""
+            if kp and tp and kp[0] == tp[0] and kf and tf:
+                # same root object: (kind, pattern) of one LookaheadExpression or fields 1 / 0 of one terminal tuple
+                if kf[-1][2] == "kind" and tf[-1][2] == "pattern" and kf[:-1] == tf[:-1]:
+                    ok, how = True, "look-ahead expression's own kind and pattern"
+                elif kf[-1][3] == "()" and tf[-1][3] == "()" and kf[-1][1] == 1 and tf[-1][1] == 0 and kf[:-1] == tf[:-1]:
+                    ok, how = True, "terminal tuple's kind (field 1) and text (field 0)"
+            ctx.check(ok, "R13.5", "%s|expand-with-own-kind|%d" % (short(b.path).split("::")[-1], n_exp),
+                      "expand() is applied to the %s" % how,
+                      "a pattern is expanded with a kind that does not belong to it (kind from %s, text from %s): raw / regex "
+                      "quoting of the terminal or its look-ahead is mixed up" % ([e[2] for e in kf], [e[2] for e in tf]),
+                      where(b, c.line))
+    ctx.require_floor("R13.5", "expand_calls", n_exp, 2)
